@@ -14,7 +14,7 @@ CONSTANTS
   ForgedSet = {"new"}
   Forged <- ForgedSel
   WantOther = TRUE
-  AdvMoves = {"MoveKB", "StripKB", "AlterKB", "ResignKB", "ForgeKB", "AddDisc", "DropDisc", "SwapDiscs"}
+  AdvMoves = {"MoveKB", "StripKB", "AlterKB", "ResignKB", "ForgeKB", "AddDisc", "DropDisc", "DupDisc", "SwapDiscs"}
   AdvKeys = {"KE2", "S2", "H2"}
   KBResignKeys = {"H2", "HE2", "K1", "H1"}
   PlanIdx = {1, 3}
